@@ -236,6 +236,31 @@ Fixpoint total_for (a : acct) (ps : list post) : Z :=
   | p :: r => (if acct_eqb a (p_acct p) then p_secs p else 0) + total_for a r
   end.
 
+(* ------------------------------------------------------------------ the postings an account holds *)
+(* account_t::posts, the list behind `stats` ("Number of postings"), `%(count)` / `%(subcount)` of bal and
+   `%(account.count)` of reg.  account_t::add_post appends unconditionally (account.cc:128-130).  A
+   time-clock posting is appended by create_timelog_xact itself (timelog.cc:70,
+   `in_event.account->add_post(post)`) and once more by xact_base_t::finalize (xact.cc:429), which
+   journal_t::add_xact runs on the transaction create_timelog_xact hands it (timelog.cc:72).  How many
+   calls each of the two makes is re-read from the source on every run (Gen/TimelogPosts.v).  The
+   amounts are not counted twice: account_t::amount marks a posting POST_EXT_CONSIDERED the first time
+   it meets it (account.cc:627-634); details_t::update has no such mark (account.cc:712-715). *)
+From LedgerV Require Import Gen.TimelogPosts.
+
+Fixpoint posts_for (a : acct) (ps : list post) : Z :=
+  match ps with
+  | [] => 0
+  | p :: r => (if acct_eqb a (p_acct p) then 1 else 0) + posts_for a r
+  end.
+
+Definition account_adds : Z := src_timelog_account_adds + src_finalize_account_adds.
+
+(* self_details().posts_count of the account after the file is read *)
+Definition held_posts (a : acct) (ps : list post) : Z := account_adds * posts_for a ps.
+
+(* the same from the number of postings alone (what the driver is asked) *)
+Definition held_of_rows (n : Z) : Z := account_adds * n.
+
 (* ------------------------------------------------------------------ reported time: display scaling *)
 (* amount_t::in_place_unreduce (amount.cc:727-757), applied by report_t::display_value to every
    amount and total a report shows unless --base is given.  A time-clock posting is in seconds (`s`);
